@@ -232,20 +232,32 @@ class PlanJoinTablesQuery:
         node2._orig_node = node
         table_info.conditions.append(node2)
 
+    def get_conjuncts(self, node):
+        # operands of the top-level AND tree of a condition
+        if node is None:
+            return []
+        if isinstance(node, BinaryOperation) and node.op.lower() == 'and':
+            conjuncts = []
+            for arg in node.args:
+                conjuncts.extend(self.get_conjuncts(arg))
+            return conjuncts
+        return [node]
+
     def check_query_conditions(self, query):
         # get conditions for tables
         binary_ops = []
 
         def _check_node_condition(node, **kwargs):
-            if isinstance(node, BetweenOperation):
-                self.check_node_condition(node)
-
             if isinstance(node, BinaryOperation):
                 binary_ops.append(node.op)
 
-                self.check_node_condition(node)
-
         query_traversal(query.where, _check_node_condition)
+
+        # only a top-level conjunct restricts the rows of its table:
+        #   a comparison under OR, NOT, inside a function or another expression does not
+        for node in self.get_conjuncts(query.where):
+            if isinstance(node, (BinaryOperation, BetweenOperation)):
+                self.check_node_condition(node)
 
         self.query_context['binary_ops'] = binary_ops
 
